@@ -165,8 +165,12 @@ impl FraudProof for BadEncodingFraudProof {
 
         let mut nmt = Nmt::default();
 
+        // only the first quadrant of the square is pushed with its own namespaces,
+        // so an axis from the other half consists of parity leaves only
+        let axis_in_ods = usize::from(self.index) < ods_width;
+
         for (n, share) in rebuilt_shares.iter().enumerate() {
-            let ns = if n < ods_width {
+            let ns = if axis_in_ods && n < ods_width {
                 // safety: length must be correct
                 Namespace::from_raw(&share[..NS_SIZE]).unwrap()
             } else {
